@@ -1777,14 +1777,14 @@ class BootstrapElectionModel(BaseElectionModel):
             called_contests = self._format_called_contests(lhs_called_contests, rhs_called_contests, contests, 1, 0, -1)
             self.called_contests = called_contests.reshape(-1, 1)
             interval_lower = np.where(
-                (interval_lower < 0)
-                & np.isclose(self.called_contests, 1),  # current bound is lower than 0 but called for dems
+                (interval_lower < self.lhs_called_threshold)
+                & np.isclose(self.called_contests, 1),  # current bound is below the threshold but called for dems
                 self.lhs_called_threshold,  # replace with left lower bound
                 interval_lower,  # otherwise keep the same
             )
             interval_upper = np.where(
-                (interval_upper > 0)
-                & np.isclose(self.called_contests, 0),  # current bound is higher than 0 but called for gop
+                (interval_upper > self.rhs_called_threshold)
+                & np.isclose(self.called_contests, 0),  # current bound is above the threshold but called for gop
                 self.rhs_called_threshold,  # replace with right upper bound
                 interval_upper,  # otherwise keep the same
             )
@@ -1794,8 +1794,12 @@ class BootstrapElectionModel(BaseElectionModel):
                 -1, 1
             )
             self.stop_model_call = stop_model_call
-            interval_lower = np.where((interval_lower > 0) & stop_model_call, self.rhs_called_threshold, interval_lower)
-            interval_upper = np.where((interval_upper < 0) & stop_model_call, self.lhs_called_threshold, interval_upper)
+            interval_lower = np.where(
+                (interval_lower > self.rhs_called_threshold) & stop_model_call, self.rhs_called_threshold, interval_lower
+            )
+            interval_upper = np.where(
+                (interval_upper < self.lhs_called_threshold) & stop_model_call, self.lhs_called_threshold, interval_upper
+            )
 
         return PredictionIntervals(interval_lower, interval_upper)
 
